@@ -6,7 +6,7 @@
    switch regimes on exactly these parameters (tools/props/c12.py runs the same cases in a matrix of
    real builds, which instantiates them). *)
 From Coq Require Import List NArith ZArith Arith Bool.
-From M4 Require Import Base.Bits Lin.Mat Lin.Ops Alg.Gray Alg.Mul Alg.MulProofs Alg.Gauss Alg.GaussProofs Alg.ConfigIndep.
+From M4 Require Import Base.Bits Lin.Mat Lin.Ops Alg.Gray Alg.Mul Alg.MulProofs Alg.Gauss Alg.GaussProofs Alg.M4RI Alg.TRSM Alg.Strassen Alg.StrassenGen Alg.ConfigIndep.
 Import ListNotations.
 
 (** Four-Russians product: any two configurations (block sizes from the cache sizes, explicit or automatic k,
@@ -31,3 +31,57 @@ Theorem C12_rref_route_indep : forall A R1 R2 p1 p2, wf A -> wf R1 -> wf R2 ->
   Lin.Spec.is_rref R1 p1 -> Lin.Spec.row_equiv A R1 -> Lin.Spec.is_rref R2 p2 -> Lin.Spec.row_equiv A R2 -> R1 = R2.
 Proof. exact cfg_rref_route_indep. Qed.
 Print Assumptions C12_rref_route_indep.
+
+(** ** the other routes: table parameter of M4RI, thresholds and cutoffs of the triangular solves, Strassen cutoffs *)
+Theorem C12_m4ri_k_indep :
+  forall (k1 k2 : nat) (full : bool) (A : Mat.mat),
+         1 <= k1 -> 1 <= k2 -> Mat.wf A -> M4RI.m4ri_run k1 full A = M4RI.m4ri_run k2 full A.
+Proof. exact @cfg_m4ri_k_indep. Qed.
+Print Assumptions C12_m4ri_k_indep.
+
+Theorem C12_trsm_lower_left_indep :
+  forall (c1 c2 : TRSM.cfg) (cut1 cut2 : nat) (L B : Mat.mat),
+         Mat.wf B ->
+         Mat.nr B <= length (Mat.rows L) ->
+         TRSM.trsm_lower_left_rec c1 cut1 L B = TRSM.trsm_lower_left_rec c2 cut2 L B.
+Proof. exact @cfg_trsm_lower_left_indep. Qed.
+Print Assumptions C12_trsm_lower_left_indep.
+
+Theorem C12_trsm_upper_left_indep :
+  forall (c1 c2 : TRSM.cfg) (cut1 cut2 : nat) (U B : Mat.mat),
+         Mat.wf B ->
+         Mat.nr B <= length (Mat.rows U) ->
+         TRSM.trsm_upper_left_rec c1 cut1 U B = TRSM.trsm_upper_left_rec c2 cut2 U B.
+Proof. exact @cfg_trsm_upper_left_indep. Qed.
+Print Assumptions C12_trsm_upper_left_indep.
+
+Theorem C12_trsm_lower_right_indep :
+  forall (c1 c2 : TRSM.cfg) (cut1 cut2 : nat) (L B : Mat.mat),
+         Mat.wf B ->
+         Mat.nc B <= length (Mat.rows L) ->
+         TRSM.trsm_lower_right_rec c1 cut1 L B = TRSM.trsm_lower_right_rec c2 cut2 L B.
+Proof. exact @cfg_trsm_lower_right_indep. Qed.
+Print Assumptions C12_trsm_lower_right_indep.
+
+Theorem C12_mzd_mul_cutoff_indep :
+  forall (base : Mat.mat -> Mat.mat -> Mat.mat -> bool -> WMat.res Mat.mat)
+           (dflt1 dflt2 : nat) (cutoff1 cutoff2 : Z) (same win : bool) (Copt : option Mat.mat)
+           (A B : Mat.mat),
+         StrassenProofs.base_correct base ->
+         let B' := if same then A else B in
+         Mat.wf A ->
+         Mat.wf B' ->
+         Mat.nc A = Mat.nr B' ->
+         0 < Mat.nr A ->
+         0 < Mat.nc A ->
+         0 < Mat.nc B' ->
+         (0 <= cutoff1)%Z ->
+         (0 <= cutoff2)%Z ->
+         StrassenProofs.dest_ok Copt A B' ->
+         Strassen.ub_guard (Strassen.norm_cutoff dflt1 (Z.to_nat cutoff1)) A B' = false ->
+         Strassen.ub_guard (Strassen.norm_cutoff dflt2 (Z.to_nat cutoff2)) A B' = false ->
+         StrassenGen.mzd_mul_gen base dflt1 cutoff1 same win Copt A B =
+         StrassenGen.mzd_mul_gen base dflt2 cutoff2 same win Copt A B.
+Proof. exact @cfg_mzd_mul_cutoff_indep. Qed.
+Print Assumptions C12_mzd_mul_cutoff_indep.
+
